@@ -372,7 +372,7 @@ class Run:
                     if st['c'] == '@obs':        # the bytes written depend on what the function has observed
                         st = dict(st, c='c%d' % (int(digest(fr.obs), 16) % 3 + 1))
                     try:
-                        mt = self.sb.write_file(fn, st['c'], st['sz'], st.get('mt'))
+                        mt = self.sb.write_file(fn, st['c'], st['sz'], st.get('mt'), link=bool(st.get('link')))
                     except OSError as x:
                         # the function's own open() fails (its target was turned into a directory by a nested
                         # call, or lies below a regular file): the function ends by raising that error
